@@ -28,7 +28,7 @@ MANIFEST = {
     "note": ("Trusted: rustc front end/const eval; spec/vt500.py; std's u8::is_ascii_whitespace = {09,0a,0c,0d,20}; the path "
              "enumerator. Not decided: whole-scanner equivalence with the VT model (loop invariant over the two phases), "
              "maximality of runs. One recorded finding: StripBytes keeps bytes after a truncated UTF-8 lead unclassified (D3)."),
-    "technique": "static analysis: const table vs spec, truth table of the keep predicate by abstract evaluation, path-enumeration typestate rules (S1-S5), value-flow rules on the stream helpers, call-graph reach",
+    "technique": "static analysis: const table vs spec, truth table of the keep predicate by abstract evaluation, path-enumeration typestate rules (S1-S6, incl. the stop byte being re-classified from the same state), abstract evaluation of the one-shot strippers' `&mut self` methods (decoder travels with the state), value-flow rules on the stream helpers, call-graph reach",
 }
 
 ASCII_WS = {0x09, 0x0a, 0x0c, 0x0d, 0x20}
